@@ -254,6 +254,7 @@ func (p *prover) valFacts(v ssa.Value) {
 			classify(e, 0)
 		}
 		p.guardedUpper(x, k)
+		p.lockstep(x, k)
 		if len(inits) > 0 {
 			for _, t := range inits {
 				_ = t
@@ -1228,6 +1229,9 @@ func proveAtCallers(c *Ctx, fn *ssa.Function, in ssa.Instruction) bool {
 			return false
 		}
 		cc := e.Site.Common()
+		if cc.StaticCallee() == nil && !cc.IsInvoke() && !c.addressTaken()[fn] {
+			continue
+		}
 		if cc.StaticCallee() != fn || len(cc.Args) != len(fn.Params) {
 			return false
 		}
@@ -1293,4 +1297,140 @@ func proveAtCallers(c *Ctx, fn *ssa.Function, in ssa.Instruction) bool {
 		}
 	}
 	return true
+}
+
+// rangeIndexOf recognises the induction variable of a counted loop in the shape go/ssa gives `for i := range s` and
+// `for i := c; i < n; i++` after rotation: a header phi r with a constant initial value r0 and one recurrent value
+// r+1. When the header ends in `r+1 < N` (N defined before the loop) and every back edge comes from under that guard,
+// r <= N-1 holds at the header provided r0 <= N-1; that fact is recorded here.
+func (p *prover) rangeIndexOf(h *ssa.BasicBlock) (r *ssa.Phi, r0 int64, ok bool) {
+	for _, in := range h.Instrs {
+		ph, isPhi := in.(*ssa.Phi)
+		if !isPhi {
+			break
+		}
+		if !isIntType(ph.Type()) || len(ph.Edges) != len(h.Preds) {
+			continue
+		}
+		var next *ssa.BinOp
+		init, haveInit, good := int64(0), false, true
+		for _, e := range ph.Edges {
+			if c, isC := ConstInt(e); isC {
+				if haveInit && c != init {
+					good = false
+				}
+				init, haveInit = c, true
+				continue
+			}
+			bo, isB := e.(*ssa.BinOp)
+			if !isB || bo.Op != token.ADD || bo.X != ssa.Value(ph) || (next != nil && next != bo) {
+				good = false
+				break
+			}
+			if c1, isC := ConstInt(bo.Y); !isC || c1 != 1 {
+				good = false
+				break
+			}
+			next = bo
+		}
+		if !good || !haveInit || next == nil {
+			continue
+		}
+		// upper bound from the header guard on r+1
+		if iff, isIf := h.Instrs[len(h.Instrs)-1].(*ssa.If); isIf && next.Block() == h {
+			if cmp, isB := iff.Cond.(*ssa.BinOp); isB && cmp.Op == token.LSS && cmp.X == ssa.Value(next) {
+				nIn, isInstr := cmp.Y.(ssa.Instruction)
+				outside := !isInstr || (nIn.Block() != h && nIn.Block().Dominates(h))
+				if _, isP := cmp.Y.(*ssa.Parameter); isP {
+					outside = true
+				}
+				body := h.Succs[0]
+				under := len(body.Preds) == 1
+				for i, e := range ph.Edges {
+					if e == ssa.Value(next) && !(body == h.Preds[i] || body.Dominates(h.Preds[i])) {
+						under = false
+					}
+				}
+				if outside && under {
+					if n := p.norm(cmp.Y); n.ok && p.g.prove("0", n.sym, n.off-init-1) { // r0 <= N-1
+						p.g.le(valKey(ph), n.sym, n.off-1)
+					}
+				}
+				return ph, init, true
+			}
+		}
+	}
+	return nil, 0, false
+}
+
+// lockstep: x is a header phi of a loop that has an induction variable r (rangeIndexOf) stepping by exactly one per
+// iteration. If x starts at a constant c0 and every recurrent edge carries x or x+1 (through joins inside the loop),
+// x grows no faster than r: x - r <= c0 - r0 at the header, hence wherever both are in scope.
+func (p *prover) lockstep(x *ssa.Phi, k string) {
+	h := x.Block()
+	r, r0, ok := p.rangeIndexOf(h)
+	if !ok || r == x || !isIntType(x.Type()) {
+		return
+	}
+	c0, haveInit := int64(0), false
+	var step func(e ssa.Value, depth int) (int64, bool)
+	step = func(e ssa.Value, depth int) (int64, bool) {
+		if e == ssa.Value(x) {
+			return 0, true
+		}
+		if depth > 6 {
+			return 0, false
+		}
+		switch y := e.(type) {
+		case *ssa.BinOp:
+			if y.Op == token.ADD {
+				if c, isC := ConstInt(y.Y); isC && c >= 0 {
+					s, ok := step(y.X, depth+1)
+					return s + c, ok
+				}
+			}
+			if y.Op == token.SUB {
+				if c, isC := ConstInt(y.Y); isC && c >= 0 {
+					s, ok := step(y.X, depth+1)
+					return s, ok // decreasing only helps the upper bound
+				}
+			}
+		case *ssa.Phi:
+			if y.Block() == h {
+				return 0, false
+			}
+			m := int64(0)
+			for _, e2 := range y.Edges {
+				s, ok := step(e2, depth+1)
+				if !ok {
+					return 0, false
+				}
+				if s > m {
+					m = s
+				}
+			}
+			return m, true
+		}
+		return 0, false
+	}
+	for i, e := range x.Edges {
+		if _, isC := ConstInt(r.Edges[i]); isC {
+			// an entry edge of the loop: x must start at a constant there
+			c, isCx := ConstInt(e)
+			if !isCx || (haveInit && c != c0) {
+				return
+			}
+			c0, haveInit = c, true
+			continue
+		}
+		s, ok := step(e, 0)
+		if !ok || s > 1 {
+			return
+		}
+	}
+	if !haveInit {
+		return
+	}
+	p.valFacts(r)
+	p.g.le(k, valKey(r), c0-r0) // x - r <= c0 - r0
 }
